@@ -174,9 +174,9 @@ Theorem dec_sites_model : forall cf st room,
                | Some (_, true) => count_dec (key_conn t) (snd (exec cf st (IEntomb t s) room)) = 1
                | _ => snd (exec cf st (IEntomb t s) room) = []
                end) /\
-  (forall t, match snd (items_delete st t) with
-             | Some (_, true) => count_dec (key_conn t) (snd (exec cf st (IDelete t) room)) = 1
-             | _ => snd (exec cf st (IDelete t) room) = []
+  (forall t lk, match snd (items_delete_call st t lk) with
+             | Some (_, true) => count_dec (key_conn t) (snd (exec cf st (IDelete t lk) room)) = 1
+             | _ => snd (exec cf st (IDelete t lk) room) = []
              end).
 Proof.
   intros cf st room. split; [|split; [|split]].
@@ -198,7 +198,7 @@ Proof.
       * destruct (reason =? reason_source_slow); [contradiction|]. destruct Hj as [<-|[]]. exact I.
       * destruct Hj as [<-|[<-|[]]]; exact I.
     + destruct Hj as [<-|[<-|[<-|[]]]]; exact I.
-  - intro t. cbn [exec]. destruct (items_delete st t) as [st' g]. cbn [snd].
+  - intros t lk. cbn [exec]. destruct (items_delete_call st t lk) as [st' g]. cbn [snd].
     destruct g as [[it [|]]|]; try reflexivity. cbn [snd].
     destruct (it_orig it); cbn; rewrite Z.eqb_refl; reflexivity.
 Qed.
